@@ -14,6 +14,8 @@ def run(ctx: Ctx) -> list[Ob]:
     obs += r7.r7a(ctx, ["cirkit.symbolic.circuit._scope_factorizations"], require=1)
     obs += r7.r7c_onesided(ctx, "cirkit.symbolic.circuit._are_compatible")
     obs += r7.r7_owner(ctx, "cirkit.templates.region_graph.graph.RegionGraph.is_compatible")
+    obs += r14.positional_records_agree_by_name(ctx)
+    obs += r7n.connectivity_not_completeness(ctx)
     return obs
 
 
@@ -31,8 +33,9 @@ SPEC = PropSpec(
         "node was drawn from."
         " R7u: no predicate of circuit.py builds 'the variables' from range(num_variables) ('not on how variables are numbered'). R7t: _scope_factorizations records for a product the scopes of its *direct* inputs (layer_inputs), not a recursive expansion through nested products. R7d also reports a filter on the inputs of a sum in is_smooth (every input of every sum is compared). R7s: the scope table the predicates read (Circuit.layer_scope) is filled, in the constructor's validation loop, with an input layer's own scope or with the union over an unfiltered iteration of *all* inputs of the layer -- a scope copied from one input hides the variables a non-smooth sum receives through the others and makes the flags depend on the order of the inputs."
         " R7n (the region-graph twin of the predicate): RegionGraph.is_structured_decomposable compares the decompositions of all partitions over the same *scope* (not per region node) and in an order-free canonical form; R14a: any itertools.groupby used by the predicates runs over a sequence sorted by the grouping key."
+        ' R14x: a record (dataclass / NamedTuple) filled positionally gets each value in the field of its name -- the i-th positional argument of StructuralProperties(self.is_smooth, ..) names the i-th declared field; four booleans type-check in any order. R7v: RegionGraph.is_compatible refuses on a transitive computation over the overlap relation (spectrum of the Laplacian, components, closure), not on completeness of the one-step relation -- regions linked through a chain are one component.'
     ),
     not_decided="completeness of the predicates (they may under-report compatibility); that stronger predicates answer False for non-smooth operands (not required by the statement, deliberately not armed).",
     run=run,
-    floors={"R7s": 2, "R7d": 5, "R7c": 1, "R7o": 2},
+    floors={"R14x": 2, "R7v": 1, "R7s": 2, "R7d": 5, "R7c": 1, "R7o": 2},
 )
